@@ -10,7 +10,10 @@
 (* coefficients, and so is the determinant: c0 + c1 e + c2 e^2 + ...       *)
 (* Because |c_j| < 2^31 and e = 2^-49, the first non-zero coefficient      *)
 (* dominates all later ones, so the exact sign is the sign of the first    *)
-(* non-zero coefficient (0 if all vanish).                                 *)
+(* non-zero coefficient (0 if all vanish).  The same holds for every other  *)
+(* lattice unit of U ulps (coordinate = 1 + (k U + q) 2^-52, e = 1/U) with  *)
+(* U > 2^31; the checks use 2^27, and an odd 40 bit unit whose multiples    *)
+(* have dense mantissas so that every floating-point product rounds.       *)
 (*                                                                         *)
 (*   orient3d(a,b,c,d) = sign det [a-d; b-d; c-d]                          *)
 (*   insphere(a,b,c,d,e) = sign det [a-e, |a-e|^2; b-e, |b-e|^2;           *)
